@@ -21,6 +21,10 @@ correspondence : standard_aggregation / naive_aggregation kernels (rebuilt from 
 search         : public routines of pyamg/aggregation/aggregate.py (standard, naive, pairwise with
                  1..3 matchings, Lloyd, balanced Lloyd) judged by the partition specification; the
                  pairwise wrapper's T and Cpts must be the composition of its recorded matchings.
+                 values (part v): the same public routines (and lloyd_cluster / balanced_lloyd_cluster) x every measure /
+                 option on COMPLEX strength matrices (purely imaginary, purely real of both signs, mixed) and real ones
+                 with negative entries, CSR and CSC, judged on the pattern (BFS); a call that does not return counts as
+                 a violation (deadline); real-valued Lloyd cases are also compared with `ext_c12_lloyd_agg`.
 """
 import hashlib
 
@@ -46,7 +50,13 @@ META = {
                     'with a stored zero (1/0 = inf) are outside the model (judged by the specification checker only)',
                     'pairwise wrapper: strength matrices and Galerkin products between matchings are not modelled; every kernel '
                     'call the wrapper makes is compared with the Lean kernel model, and T / Cpts with the composition of the '
-                    'recorded assignment maps (the object of pairwise_matchings_fiber)'],
+                    'recorded assignment maps (the object of pairwise_matchings_fiber)',
+                    'values part: complex strength matrices (six value classes x symmetric / conjugate / nonsymmetric values on a '
+                    'symmetric pattern) and real matrices with negative entries through standard, naive, pairwise (norm=abs for '
+                    'complex), Lloyd, lloyd_cluster, balanced Lloyd x all five measures, CSR / CSC: specification checkers only '
+                    '(reachability by BFS on the pattern; a ValueError is accepted only when the documented edge length is negative / '
+                    'non-positive / the graph is disconnected); NOT generated because the unchanged code fails there (reported): '
+                    'complex C with lloyd_aggregation(measure=None or min) and with balanced_lloyd_aggregation (any measure)'],
     'partial': [],
     'assumptions': ['Lloyd theorems (lloyd_cluster_spec, lloyd_aggregation_spec): symmetric sparsity pattern, column indices in '
                     'range, weights non-negative after the measure, distinct initial centres, maxiter >= 1; Lloyd exact comparison: '
@@ -651,9 +661,14 @@ def part_d(ctx, graphs):
 # generated values are non-zero, so stored = non-zero), reachable set by BFS on the dense pattern.
 # Real-valued Lloyd cases are also compared with the Lean model (`ext_c12_lloyd_agg`, real weights only).
 
-# balanced_lloyd_aggregation on complex C uses real(C.data) whatever the measure (reported; no known: entry):
-# until that is settled, complex values with a real part <= 0 are given to balanced Lloyd with measure=None only
-BALANCED_COMPLEX_ANY_MEASURE = False
+# Two defects of the unchanged tree on complex C (reported; no known: entry yet, so these input classes stay out):
+# (1) `np.real(data)` is a strided view of the complex buffer and the kernels read it as contiguous (edge lengths =
+#     interleaved real / imaginary parts): lloyd_aggregation(measure=None / 'min') and balanced_lloyd_aggregation (every
+#     measure) hang or abort on e.g. C = [[0, 1-2j], [1-2j, 0]];
+# (2) balanced_lloyd_aggregation uses real(C.data) whatever the measure, so measure='abs' / 'inv' / 'unit' raise
+#     'requires a positive measure' as soon as one entry has a real part <= 0.
+COMPLEX_REAL_VIEW_FIXED = False         # (1): lloyd x complex x (None, 'min') and balanced x complex are generated
+BALANCED_COMPLEX_ANY_MEASURE = False    # (2): balanced x complex values with a real part <= 0 x measure other than None
 
 _VALS = {
     'c_mixed': [2j, -1j, 0.5j, 1.0, 2.0, -1.0, -0.5, 1 + 1j, -1 + 2j, 0.5 - 1j, -2 - 0.5j],
@@ -698,6 +713,35 @@ def oracle_measure(z, measure):
     else:
         w = z - min(z, key=lambda v: (v.real, v.imag)) if len(z) else z
     return np.real(w)
+
+
+class _Hang(Exception):
+    pass
+
+
+_DEADLINE = 20.0    # seconds; a Lloyd call on these graphs (n <= 60) takes milliseconds
+
+
+def _with_deadline(fn):
+    """fn() in a worker thread (the native kernels release the GIL); raises _Hang when it has not returned in time.
+    Bellman-Ford with a negative length never terminates: a routine that does not return violates the property, and
+    the check must not hang with it (the worker is a daemon thread; the caller stops its part after a _Hang)."""
+    import threading
+    box = []
+
+    def work():
+        try:
+            box.append((True, fn()))
+        except BaseException as ex:
+            box.append((False, ex))
+    th = threading.Thread(target=work, daemon=True)
+    th.start()
+    th.join(_DEADLINE)
+    if not box:
+        raise _Hang()
+    if not box[0][0]:
+        raise box[0][1]
+    return box[0][1]
 
 
 def _bfs_dense(P, sources):
@@ -770,6 +814,25 @@ def values_case(ctx, c, wrapper_calls=None):
                 else:
                     e = composition_error(spy.calls, T, roots, n)
             res['err'] = e
+        elif routine in ('lloyd_cluster', 'balanced_lloyd_cluster'):
+            # the clustering functions of pyamg/graph.py themselves: a complex G means the lengths |G[i,j]|
+            from pyamg import graph as PG
+            fn = PG.lloyd_cluster if routine == 'lloyd_cluster' else PG.balanced_lloyd_cluster
+            c0 = np.array(c['centers'], dtype=np.int32)
+            np.random.seed(int(c['seed']))
+            try:
+                cl, ce = _with_deadline(lambda: fn(C.copy(), c0.copy(), maxiter=int(c['maxiter'])))
+                res['err'] = lloyd_cluster_spec_error(n, ap, aj, cl, ce, len(c0))
+            except ValueError as ex:
+                w, msg = np.abs(data) if data.dtype.kind == 'c' else data, str(ex)
+                if 'positive weights' in msg and ((w < 0).any() or (routine == 'balanced_lloyd_cluster' and (w <= 0).any())):
+                    ctx.feat('values:refused:negative_weight')
+                elif routine == 'balanced_lloyd_cluster' and 'disconnected' in msg and not _bfs_dense(P, c0).all():
+                    ctx.feat('values:refused:disconnected')
+                elif routine == 'balanced_lloyd_cluster' and 'maxsize' in msg:
+                    ctx.feat('values:refused:maxsize')
+                else:
+                    res['err'] = f'raised ValueError: {msg}'
         else:
             fn = AG.lloyd_aggregation if routine == 'lloyd' else AG.balanced_lloyd_aggregation
             G = C.copy() if c.get('fmt', 'csr') == 'csr' else sp.csc_array((data.copy(), aj.copy(), ap.copy()), shape=(n, n))
@@ -777,7 +840,7 @@ def values_case(ctx, c, wrapper_calls=None):
             perm = np.random.permutation(n)
             np.random.seed(int(c['seed']))
             try:
-                AggOp, centers = fn(G, ratio=c['ratio'], measure=c['measure'], maxiter=int(c['maxiter']))
+                AggOp, centers = _with_deadline(lambda: fn(G, ratio=c['ratio'], measure=c['measure'], maxiter=int(c['maxiter'])))
             except ValueError as ex:
                 w, msg = oracle_measure(data, c['measure']), str(ex)
                 res['out'] = 'ValueError'
@@ -805,12 +868,21 @@ def values_case(ctx, c, wrapper_calls=None):
                         break
             res['err'] = e
             res['out'] = enc_ints(AggOp.indptr) + ';' + enc_ints(AggOp.indices) + ';' + enc_ints(AggOp.data) + ';' + enc_ints(centers)
+    except _Hang:
+        res['err'], res['hang'] = f'did not return within {_DEADLINE:.0f} s (a few milliseconds are normal)', True
     except Exception as ex:
         res['err'] = f'raised {type(ex).__name__}: {ex}'
     return res
 
 
 def part_v(ctx, graphs):
+    try:
+        _part_v(ctx, graphs)
+    except _Hang:
+        ctx.feat('values:stopped_after_hang')       # the kernel is still spinning in its thread: no further cases
+
+
+def _part_v(ctx, graphs):
     rng = ctx.np_rng
     classes = list(_VALS)
     wrapper_calls, items = [], []
@@ -834,8 +906,10 @@ def part_v(ctx, graphs):
             ctx.feat('values:' + routine)
             res = values_case(ctx, case, wrapper_calls)
             if res['err']:
-                ctx.violation(f'{routine}_aggregation on {cls} values ({ {k: v for k, v in kw.items() if k != "seed"} }): {res["err"]}',
-                              case, fkey=res['fkey'])
+                ctx.violation(f'{routine}{"" if "cluster" in routine else "_aggregation"} on {cls} values '
+                              f'({ {k: v for k, v in kw.items() if k != "seed"} }): {res["err"]}', case, fkey=res['fkey'])
+            if res.get('hang'):
+                raise _Hang()
             return case, res
         one('standard')
         one('naive')
@@ -850,9 +924,15 @@ def part_v(ctx, graphs):
         # ---- Lloyd / balanced Lloyd x every measure
         ratio = float(rng.choice([0.125, 0.25, 0.5, 0.75, 1.0]))
         maxiter = int(rng.integers(1, 5))
+        if n >= 1 and t % 3 != 1:
+            cen = [int(v) for v in rng.choice(n, size=int(rng.integers(1, min(n, 4) + 1)), replace=False)]
+            for routine in ('lloyd_cluster', 'balanced_lloyd_cluster'):
+                one(routine, centers=cen, maxiter=maxiter, seed=int(rng.integers(2**31)))
         fmt = 'csc' if t % 4 == 3 else 'csr'
         for measure in _MEASURES:
             for routine in ('lloyd', 'balanced_lloyd'):
+                if cplx and not COMPLEX_REAL_VIEW_FIXED and (routine == 'balanced_lloyd' or measure in (None, 'min')):
+                    continue
                 if routine == 'balanced_lloyd' and cplx and measure is not None and cls != 'c_posre' and not BALANCED_COMPLEX_ANY_MEASURE:
                     continue
                 seed = int(rng.integers(2**31))
@@ -879,6 +959,30 @@ def part_v(ctx, graphs):
 # (the model checks that a recorded order is a sorted permutation).
 
 TOL = 1e-14          # `const double tol` of bellman_ford_balanced / floyd_warshall / center_nodes
+
+
+class _Hang(Exception):
+    pass
+
+
+class _cpu_limit:
+    """raise _Hang inside the guarded block after `seconds` of CPU time (a Python-level loop such as the
+    `while` of `_rebalance` that does not terminate must not stall the check)"""
+    def __init__(self, seconds=8.0):
+        self.seconds = seconds
+
+    def __enter__(self):
+        import signal
+
+        def handler(signum, frame):
+            raise _Hang()
+        self.saved = signal.signal(signal.SIGVTALRM, handler)
+        signal.setitimer(signal.ITIMER_VIRTUAL, self.seconds)
+
+    def __exit__(self, *a):
+        import signal
+        signal.setitimer(signal.ITIMER_VIRTUAL, 0)
+        signal.signal(signal.SIGVTALRM, self.saved)
 
 
 class _ArgsortSpy:
@@ -967,10 +1071,13 @@ def bal_cluster_item(n, ap, aj, ax, centers, maxiter, reb, tb):
     err = None
     with _ArgsortSpy(PG) as spy:
         try:
-            cl, ce = PG.balanced_lloyd_cluster(G, np.array(centers, dtype=np.int32), maxiter=maxiter,
-                                               rebalance_iters=reb, tiebreaking=tb)
+            with _cpu_limit():
+                cl, ce = PG.balanced_lloyd_cluster(G, np.array(centers, dtype=np.int32), maxiter=maxiter,
+                                                   rebalance_iters=reb, tiebreaking=tb)
             out = enc_ints(cl) + ';' + enc_ints(ce)
             res = (np.array(cl), np.array(ce))
+        except _Hang:
+            out, res, err = 'hang', None, 'hang'
         except ValueError as ex:
             msg = str(ex)
             out = ('ValueError:maxsize' if 'maxsize' in msg else 'ValueError:disconnected' if 'disconnected' in msg
@@ -1035,6 +1142,8 @@ def part_e(ctx, graphs):
                     return None if err == 'ValueError' else f'{err} instead of the argument ValueError'
                 if err == 'ValueError':
                     return 'ValueError for a valid input'
+                if err == 'hang':
+                    return 'the call does not terminate (CPU limit)'
                 if sym and conn and err in ('ValueError:disconnected', 'ValueError:pc', 'RuntimeError'):
                     return f'{err} on a connected symmetric graph'
                 return None
@@ -1114,10 +1223,13 @@ def part_e(ctx, graphs):
                 try:
                     with warnings.catch_warnings():
                         warnings.simplefilter('ignore')
-                        AggOp, ce = AG.balanced_lloyd_aggregation(C, **kw)
+                        with _cpu_limit():
+                            AggOp, ce = AG.balanced_lloyd_aggregation(C, **kw)
                     AggOp = sp.csr_array(AggOp)
                     out = enc_ints(AggOp.indptr) + ';' + enc_ints(AggOp.indices) + ';' + enc_ints(AggOp.data) + ';' + enc_ints(ce)
                     res = (AggOp, ce)
+                except _Hang:
+                    out, res, err = 'hang', None, 'hang'
                 except ValueError as ex:
                     msg = str(ex)
                     out = ('ValueError:maxsize' if 'maxsize' in msg else 'ValueError:disconnected' if 'disconnected' in msg
@@ -1134,6 +1246,8 @@ def part_e(ctx, graphs):
                 if res is None:
                     if err == 'ValueError':
                         return None if zero_w else 'ValueError for a valid input'
+                    if err == 'hang':
+                        return 'the call does not terminate (CPU limit)'
                     if sym and conn and not zero_w:
                         return f'{err} on a connected symmetric graph'
                     return None
@@ -1170,6 +1284,7 @@ def run(ctx):
         part_b(ctx, list(graph_stream(ctx, 4, 200, 30)))
         part_c(ctx, list(graph_stream(ctx, 4, 300, 40)))     # after a, b: leaves the random streams of parts a, b unchanged
         part_d(ctx, list(graph_stream(ctx, 4, 300, 30)))
+        part_e(ctx, list(graph_stream(ctx, 4, 300, 24)))     # balanced Lloyd (E34)
         part_v(ctx, list(graph_stream(ctx, 4, 200, 30)))     # part v (values) last: the random streams of the parts above are unchanged
     else:
         part_a(ctx, list(graph_stream(ctx, 6, 5000, 60)))
@@ -1184,7 +1299,79 @@ def search(ctx):
     part_b(ctx, list(graph_stream(ctx, 5, 1500, 40)))
     part_c(ctx, list(graph_stream(ctx, 5, 1500, 40)))
     part_d(ctx, list(graph_stream(ctx, 5, 1500, 40)))
+    part_e(ctx, list(graph_stream(ctx, 5, 1500, 40)))
     part_v(ctx, list(graph_stream(ctx, 5, 1500, 40)))
+
+
+def replay_bal(ctx, c):
+    from pyamg import amg_core
+    from pyamg import graph as PG
+    from pyamg.aggregation import aggregate as AG
+    import warnings
+    n = int(c['n'])
+    ap, aj = np.array(c['ap'], dtype=np.int32), np.array(c['aj'], dtype=np.int32)
+    ax = np.array(c['ax'], dtype=np.float64)
+    if c['routine'] == 'balanced_lloyd_cluster':
+        line, out, res, err, _ = bal_cluster_item(n, ap, aj, ax, np.array(c['centers'], dtype=np.int32), int(c['maxiter']),
+                                                  int(c['reb']), bool(c['tb']))
+        if res is not None and int(c['maxiter']) >= 1:
+            e = bal_cluster_spec_error(n, res[0], res[1], len(c['centers']))
+            if e:
+                print('  specification:', e)
+    elif c['routine'] == 'center_nodes':
+        cs = np.array(c['centers'], dtype=np.int32)
+        kk = len(cs)
+        maxsize = int(12 * np.ceil(n / kk))
+        d = np.full(n, np.inf)
+        m = np.full(n, -1, dtype=np.int32)
+        p = np.full(n, -1, dtype=np.int32)
+        pc = np.zeros(n, dtype=np.int32)
+        s = np.ones(kk, dtype=np.int32)
+        d[cs] = 0
+        m[cs] = np.arange(kk)
+        p[cs] = cs
+        pc[cs] = 1
+        amg_core.bellman_ford_balanced(n, ap, aj, ax, cs, d, m, p, pc, s, True)
+        line = (f'ext_c12_center_nodes {_hdr(n, ap, aj, ax)} {enc_rat(TOL)} {maxsize} {enc_ints(cs)} {_orats(d)} '
+                f'{enc_ints(m)} {enc_ints(p)} {enc_ints(pc)} {enc_ints(s)}')
+        ch = amg_core.center_nodes(n, ap, aj, ax, np.zeros(kk, dtype=np.int32), np.zeros(maxsize * maxsize),
+                                   np.zeros(maxsize * maxsize, dtype=np.int32), np.zeros(n, dtype=np.int32),
+                                   np.zeros(n, dtype=np.int32), np.zeros(maxsize), cs, d, m, p, pc, s)
+        out = enc_ints(cs) + ';' + _orats(d) + ';' + enc_ints(p) + ';' + enc_ints(pc) + ';' + ('true' if ch else 'false')
+    else:
+        np.random.seed(int(c['seed']))
+        perm = np.random.permutation(n)
+        np.random.seed(int(c['seed']))
+        C = sp.csr_array((ax.copy(), aj.copy(), ap.copy()), shape=(n, n))
+        ms = 'None' if c['measure'] is None else c['measure']
+        with _ArgsortSpy(PG) as spy:
+            try:
+                with warnings.catch_warnings():
+                    warnings.simplefilter('ignore')
+                    with _cpu_limit():
+                        AggOp, ce = AG.balanced_lloyd_aggregation(C, ratio=c['ratio'], measure=c['measure'],
+                                                                  maxiter=int(c['maxiter']),
+                                                                  rebalance_iters=int(c['rebalance_iters']))
+                AggOp = sp.csr_array(AggOp)
+                out = enc_ints(AggOp.indptr) + ';' + enc_ints(AggOp.indices) + ';' + enc_ints(AggOp.data) + ';' + enc_ints(ce)
+                e = check_aggop(AggOp, ce, n, 'balanced_lloyd')
+                if e:
+                    print('  specification:', e)
+            except ValueError as ex:
+                msg = str(ex)
+                out = ('ValueError:maxsize' if 'maxsize' in msg else 'ValueError:disconnected' if 'disconnected' in msg
+                       else 'ValueError:pc' if 'Predecessor' in msg else 'ValueError')
+            except RuntimeError:
+                out = 'too-many-iterations'
+            except _Hang:
+                out = 'hang'
+        es, ss = _ords(spy.calls)
+        line = (f'ext_c12_ballloyd_agg {ms} {enc_rat(c["ratio"])} {_hdr(n, ap, aj, ax)} {enc_rat(TOL)} {enc_ints(perm)} '
+                f'{int(c["maxiter"])} {int(c["rebalance_iters"])} {es} {ss}')
+    o = ctx.lean([line])[0]
+    print('replaying', c['routine'], ': model =', o[:200], '| implementation =', out[:200])
+    if o != out and not o.startswith('unmodelled'):
+        ctx.corr(c['routine'] + ' vs BalLloyd model', c, o, out)
 
 
 def replay_lloyd(ctx, c):
